@@ -7,13 +7,12 @@ from pyvc.api import *
 # space_available_downstream (or a gate predicate) runs, none of its fields changes.
 PT_PROTECT = ['self._env', 'self._env._now', 'self._name', 'self._value', 'self._initial_value', 'self._value_history',
               'self._value_history[]', 'self._downstream', 'self._downstream[]', 'self._upstream', 'self._upstream[]',
-              'self._block_input', 'self._recursion_prevention', 'self._joined_groups', 'self._joined_groups[]',
-              # not a field of these classes, but the engine attributes subclass fields to the base class when it
-              # checks frames (the sort key of the candidates reads it on the neighbours)
-              'self._waiting_for_part_since']
+              'self._block_input', 'self._recursion_prevention', 'self._joined_groups', 'self._joined_groups[]']
 PT_NOTE = ('A4/IC: during a neighbour\'s give_part / space_available_downstream or a gate predicate, no field of a '
            'pass-through device (wiring, input block, group membership, clock) is changed')
-rely('PartFlowController', protect=PT_PROTECT, note=PT_NOTE)
+# '_waiting_for_part_since' is not a field of PartFlowController, but the engine attributes fields of subclasses to
+# the base class when it checks self-only frames (the sort key of the candidates reads that field on the neighbours)
+rely('PartFlowController', protect=PT_PROTECT + ['self._waiting_for_part_since'], note=PT_NOTE)
 rely('DecisionGate', protect=PT_PROTECT + ['self._decider_override'], note=PT_NOTE)
 for c_ in ('GroupInput', 'GroupOutput', 'GroupPath'):
     rely(c_, protect=PT_PROTECT + ['self._group'], note=PT_NOTE)
@@ -131,3 +130,54 @@ ghost_after('PartFlowController.give_part', '<entry>', g_k='0')
 contract('PartFlowController.give_part', props=['C08'], for_cls=['PartFlowController'], args={'part': 'ref:Part'},
          result='bool', requires={'part_alive': 'part is None or alive(part)'},
          ensures=pass_through_clauses('old(trace_len()) + 1', True), modifies=['$trace'])
+
+# the sort key the engine's model of sorted() uses (devices.py: waiting-since stamp, never idle = +inf) is the real one
+contract('PartFlowController._downstream_sorting_key_generator', props=['C08'],
+         args={'downstream': 'ref:PartFlowController'}, result='ext',
+         requires={'candidate_exists': 'downstream is not None and alive(downstream)'},
+         ensures={'key_is_the_idle_stamp_and_infinity_when_not_idle':
+                      'result == ite(wait_since(downstream) is None, float("inf"), wait_since(downstream))'},
+         modifies=[])
+
+# --------------------------------------------------------------------------- DecisionGate
+# The predicate is a first-class callable: its invocation is trace entry old(trace_len()) (kind 0).  A gate that lets
+# the part through then behaves exactly like a plain pass-through device, one trace position later.
+GATE_PASSED = 'trace_len() > old(trace_len()) + 1'
+gate_cl = {
+    'C08/predicate_is_asked_first_with_the_part_and_nothing_else':
+        'trace_len() >= old(trace_len()) + 1 and trace_kind(old(trace_len())) == 0 and '
+        'trace_fn(old(trace_len())) == self._decider_override and trace_ref(old(trace_len()), 0) is part',
+    'C02,C08/predicate_false_means_refused_with_no_other_call':
+        'implies(not trace_resb(old(trace_len())), not result and trace_len() == old(trace_len()) + 1)',
+    'C02,C08/no_call_besides_the_predicate_means_refused':
+        f'implies(not {GATE_PASSED}, not result)',
+}
+for n_, t_ in pass_through_clauses('old(trace_len()) + 2', True).items():
+    t_ = t_.replace('trace_len() == old(trace_len()))', 'trace_len() == old(trace_len()) + 1)') \
+           .replace('trace_kind(old(trace_len())) == fn_id("add_routing_history")', 'trace_kind(old(trace_len()) + 1) == fn_id("add_routing_history")') \
+           .replace('trace_recv(old(trace_len())) is part and trace_ref(old(trace_len()), 0) is self',
+                    'trace_recv(old(trace_len()) + 1) is part and trace_ref(old(trace_len()) + 1, 0) is self')
+    gate_cl[n_] = f'implies(trace_resb(old(trace_len())), {t_})'
+ghost_after('DecisionGate.give_part', '<entry>', g_k='0')
+contract('DecisionGate.give_part', props=['C08'], for_cls=['DecisionGate'], args={'part': 'ref:Part'}, result='bool',
+         requires={'part_alive': 'part is None or alive(part)', 'predicate_exists': 'self._decider_override is not None'},
+         ensures=gate_cl, modifies=['$trace'])
+
+# --------------------------------------------------------------------------- PartFlowController: notifications
+NOTIFIED_ALL = ('trace_len() == old(trace_len()) + len(self._upstream) and '
+                'all(trace_kind(old(trace_len()) + j) == fn_id("space_available_downstream") and '
+                '    trace_recv(old(trace_len()) + j) is self._upstream[j] for j in range(len(self._upstream)))')
+PT_ROUTERS = ['PartFlowController', 'DecisionGate']
+contract('PartFlowController.notify_upstream_of_available_space', props=['C03', 'C08'], for_cls=PT_ROUTERS, args={},
+         ensures={'every_upstream_is_notified_once_in_order': NOTIFIED_ALL}, modifies=['$trace'])
+contract('PartFlowController.space_available_downstream', props=['C03', 'C08'], for_cls=PT_ROUTERS, args={},
+         ensures={'notification_is_forwarded_to_every_upstream_once_in_order': NOTIFIED_ALL}, modifies=['$trace'])
+
+contract('PartFlowController.block_input.setter', props=['C08', 'C03'], for_cls=PT_ROUTERS, args={'is_blocked': 'bool'},
+         ensures={'C08/flag_is_set': 'self._block_input == is_blocked',
+                  'C03,C08/unchanged_flag_is_a_no_op':
+                      'implies(old(self._block_input) == is_blocked, trace_len() == old(trace_len()))',
+                  'C03,C08/blocking_notifies_nobody': 'implies(is_blocked, trace_len() == old(trace_len()))',
+                  'C03,C08/unblocking_notifies_every_upstream_once_in_order':
+                      f'implies(old(self._block_input) and not is_blocked, {NOTIFIED_ALL})'},
+         modifies=['self._block_input', '$trace'])
